@@ -183,10 +183,13 @@ def random_cfg(rng, small=True):
          "running": rng.random() < .5, "fuseTrk": rng.random() < .5, "fuseVal": rng.random() < .5,
          "fuseVel": rng.random() < .5}
     c["pitHi"] = max(c["pitHi"], c["pitLo"] + 1)
+    if rng.random() < .12:      # a fine resolution: step sizes and note values of three and four digits
+        c.update(ppqn=480, steps=[60, 120, 240, 480], values=rng.choice([[120, 240, 480, 960, 1920], [60, 480, 1440]]))
     return c
 
 
 def random_piece(rng, c):
+    unit = min(c["steps"])          # every tokenised event sits on the grid of the smallest step
     sigs, t = [], 0
     nb = rng.randint(1, 6)
     sig = (4, 4)
@@ -207,7 +210,7 @@ def random_piece(rng, c):
             tracks.append([])
             continue
         for _ in range(rng.randint(0, 8)):
-            s = 2 * rng.randint(0, max(0, end // 2 - 1))
+            s = unit * rng.randint(0, max(0, end // unit - 1))
             val = rng.choice(c["values"])
             if rng.random() < .25:          # a note starting on a bar line; when a value equals the bar length it fills the bar
                 b0, b1 = rng.choice(bars)
@@ -222,7 +225,7 @@ def random_piece(rng, c):
         tracks.append(notes)
     shape = rng.random()
     last = max([n["e"] for tr in tracks for n in tr], default=0)
-    even = lambda x: x + (x % 2)       # an end mark sits on the step grid like every other tokenised event
+    even = lambda x: -(-x // unit) * unit       # an end mark sits on the step grid like every other tokenised event
     if shape < .5 or last == 0:
         pc = {"tracks": tracks, "sigs": sigs, "end": even(max(end, last)), "cap": True, "bars": last <= end}
         if last > end:      # notes run past the last bar: the piece ends with its last note-off, there is no end mark
@@ -230,7 +233,7 @@ def random_piece(rng, c):
     elif shape < .75:
         pc = {"tracks": tracks, "sigs": [s for s in sigs if s[0] < last], "end": last, "cap": False, "bars": False}
     else:
-        pc = {"tracks": tracks, "sigs": [s for s in sigs if s[0] < last + 10], "end": even(last + 10), "cap": True, "bars": False}
+        pc = {"tracks": tracks, "sigs": [s for s in sigs if s[0] < last + 5 * unit], "end": even(last + 5 * unit), "cap": True, "bars": False}
     return pc
 
 
